@@ -123,3 +123,77 @@ pub fn many_chunk_values(r: &mut Rng) -> String {
     }
     s
 }
+
+/// A *structured* input sequence for the operations that consume a sequence of values (`extend`, `from_iter`, their
+/// `&`-item forms, `From<[T; N]>`): not only independent random values but the shapes a caller really passes and that a
+/// sequence-aware implementation (run coalescing, "same chunk as the previous value" caches, sortedness shortcuts) could
+/// mishandle — ascending runs of consecutive integers that cross an `edge` (a multiple of 2^16 for the 32-bit type, of
+/// 2^32 for the 64-bit type), the same run descending, immediate repeats, a sorted sample, and concatenations of those.
+/// `pick` draws one value of the profile's pool; `max` is the largest value of the type.
+pub fn structured_seq(r: &mut Rng, maxlen: u64, edge: u64, max: u64, pick: &mut dyn FnMut(&mut Rng) -> u64) -> Vec<u64> {
+    let mut v: Vec<u64> = Vec::new();
+    let parts = r.range(1, 3);
+    for _ in 0..parts {
+        let room = maxlen.saturating_sub(v.len() as u64);
+        if room == 0 {
+            break;
+        }
+        match r.below(8) {
+            0 | 1 => {
+                // a run of consecutive integers across an edge: a before it, b from it on
+                let p = pick(r);
+                let e = (p / edge).max(1).saturating_mul(edge);
+                let e = if e > max { edge } else { e };
+                let a = r.range(0, 4).min(e);
+                let b = r.range(if a == 0 { 1 } else { 0 }, 4);
+                let mut run: Vec<u64> = (e - a..=(e - 1).saturating_add(b).min(max)).collect();
+                if a == 0 && b == 0 {
+                    run.push(e);
+                }
+                if r.chance(1, 4) {
+                    run.reverse();
+                }
+                run.truncate(room as usize);
+                v.extend(run);
+            }
+            2 => {
+                // a run of consecutive integers anywhere (ascending; sometimes ending exactly at the top of the type)
+                let n = r.range(2, 8).min(room);
+                let s = if r.chance(1, 6) { max - (n - 1) } else { pick(r).min(max - (n - 1)) };
+                v.extend(s..=s + (n - 1));
+            }
+            3 => {
+                // immediate repeats and a step back
+                let p = pick(r);
+                v.push(p);
+                v.push(p);
+                v.push(p.saturating_add(1).min(max));
+                v.push(p);
+                v.truncate(maxlen as usize);
+            }
+            4 => {
+                // a sorted sample
+                let n = r.range(1, 8).min(room);
+                let mut s: Vec<u64> = (0..n).map(|_| pick(r)).collect();
+                s.sort_unstable();
+                v.extend(s);
+            }
+            _ => {
+                let n = r.range(0, 8).min(room);
+                for _ in 0..n {
+                    v.push(pick(r));
+                }
+            }
+        }
+    }
+    v
+}
+
+pub fn join_vals(v: &[u64]) -> String {
+    let mut s = String::new();
+    for x in v {
+        s.push(' ');
+        s.push_str(&x.to_string());
+    }
+    s
+}
